@@ -26,8 +26,8 @@ ATTR_TYPE_HINTS = {          # attribute name -> class, wherever the receiver is
 # library operations on possibly-closed OS resources
 CLOSED_RESOURCE = {
     "selector.modify": {"KeyError#res", "ValueError#res", "OSError#res"}, "selector.register": {"KeyError#res", "ValueError#res", "OSError#res"},
-    "selector.unregister": {"KeyError#res", "ValueError#res"}, "sock.send": {"OSError#res"}, "sock.recv": {"OSError#res"},
-    "sock.close": set(), "sock.accept": {"OSError#res"}, "sock.sctp_send": {"OSError#res"}, "sock.sctp_recv": {"OSError#res"},
+    "selector.unregister": {"KeyError#res", "ValueError#res"}, "sock.send": {"OSError#send"}, "sock.recv": {"OSError#recv"},
+    "sock.close": set(), "sock.accept": {"OSError#res"}, "sock.sctp_send": {"OSError#send"}, "sock.sctp_recv": {"OSError#recv"},
 }
 
 
@@ -188,6 +188,14 @@ class Raises:
                 for k, v in CLOSED_RESOURCE.items():
                     if cn.endswith("." + k) or cn == k:
                         out |= v
+            # dynamic AVP attributes of a message exist only when that AVP was listed: `msg.<name>_avp` needs a
+            # dominating `msg.has_avp('<name>_avp')` (a vendor-flagged or absent AVP gets another / no attribute)
+            if isinstance(n, ast.Attribute) and isinstance(n.ctx, ast.Load) and n.attr.endswith("_avp") and n.attr != "has_avp":
+                recv = n.value
+                rt = self._type_of(fi, recv, ctx.get("lt", {}))
+                if rt is not None and rt.name in ("DiameterMessage", "DiameterRequest", "DiameterAnswer") and \
+                        not _guarded_by_has_avp(fi, n):
+                    out.add("AttributeError")
             if isinstance(n, ast.Subscript) and not isinstance(n.slice, ast.Slice) and isinstance(n.ctx, ast.Load) \
                     and _wire_like(n.value, fi) and not isinstance(n.slice, ast.Constant) or \
                     isinstance(n, ast.Subscript) and isinstance(n.slice, ast.Constant) and isinstance(n.slice.value, int) \
@@ -241,7 +249,7 @@ class Raises:
                                         for x in e:
                                             self.origin.setdefault((fi.qual, x), f"setter {sf.qual}")
                                         out |= e
-            hz = self.hazards(fi, node, {"len_guard": len_guard or (lambda n: False)})
+            hz = self.hazards(fi, node, {"len_guard": len_guard or (lambda n: False), "lt": lt})
             for x in hz:
                 self.origin.setdefault((fi.qual, x), f"hazard in `{ast.unparse(node)[:60]}` ({fi.where(node)})")
             out |= hz
@@ -402,3 +410,57 @@ def length_guards(repo, fi):
             return 0 <= sub.slice.value < guards[x] and sub.lineno > guards.get("__line__" + x, 0)
         return False
     return ok
+
+
+def _guarded_by_has_avp(fi, attr_node):
+    """Is the read `X.<name>_avp` lexically inside the body of an `if` whose test contains `X.has_avp('<name>[_avp]')`
+    (possibly as a conjunct), or to the right of such a conjunct in the same `and` chain?"""
+    x = ast.unparse(attr_node.value)
+    name = attr_node.attr
+    short = name[:-4]
+    wants = {f"{x}.has_avp('{name}')", f"{x}.has_avp('{short}')"}
+
+    def test_has(t):
+        if isinstance(t, ast.BoolOp) and isinstance(t.op, ast.And):
+            return any(test_has(v) for v in t.values)
+        return ast.unparse(t) in wants
+
+    def visit(stmts, guarded):
+        for s in stmts:
+            if isinstance(s, ast.If):
+                if any(y is attr_node for y in ast.walk(s.test)):
+                    # inside the test itself: guarded by an earlier conjunct
+                    t = s.test
+                    if isinstance(t, ast.BoolOp) and isinstance(t.op, ast.And):
+                        seen = False
+                        for v in t.values:
+                            if any(y is attr_node for y in ast.walk(v)):
+                                return guarded or seen
+                            if test_has(v):
+                                seen = True
+                    return guarded
+                r = visit(s.body, guarded or test_has(s.test))
+                if r is not None:
+                    return r
+                r = visit(s.orelse, guarded)
+                if r is not None:
+                    return r
+            else:
+                hit = any(y is attr_node for y in ast.walk(s))
+                if hit and not isinstance(s, (ast.For, ast.While, ast.With, ast.Try)):
+                    return guarded
+                for f in ("body", "orelse", "finalbody"):
+                    b = getattr(s, f, None)
+                    if isinstance(b, list):
+                        r = visit(b, guarded)
+                        if r is not None:
+                            return r
+                for h in getattr(s, "handlers", []) or []:
+                    r = visit(h.body, guarded)
+                    if r is not None:
+                        return r
+                if hit:
+                    return guarded
+        return None
+    r = visit(fi.node.body, False)
+    return bool(r)
